@@ -106,7 +106,7 @@ fn run(cfg: &RunCfg) -> Report {
 }
 
 fn finish(rep: &mut Report, cfg: &RunCfg) {
-    floor(rep, cfg, 20_000);
+    floor(rep, cfg, 5_000);
     if !cfg.is_small() {
         for f in REQUEST_FORMS {
             if !rep.classes.contains_key(&format!("{}:ok", f.name())) {
